@@ -1,19 +1,26 @@
 """Runs the registered checks against every seeded change under /verif/seeded.
 
-For each S-<property>-<n>/: `git -C /repo apply patch.diff`, run `./check <property>` (quick tier,
-baseline count check off because a seeded change may legitimately remove obligations), record exit
-code, VIOLATION lines and replay verdicts in meta.json, then `git -C /repo checkout -- .`.
-The repository is never committed to.  Usage: python3 tools/run_seeded.py [S-C03-1 ...]
+Default mode, for each S-<property>-<n>/: `git -C /repo apply patch.diff`, run `./check <property>`
+(quick tier, baseline count check off because a seeded change may legitimately remove obligations),
+record exit code, VIOLATION lines and replay verdicts in meta.json, then `git -C /repo checkout -- .`.
+The repository is never committed to.
+
+--copies N: the same runs, N at a time, each on a scratch copy of /repo's HEAD with the patch applied
+(`HASHSTORE_SRC=<copy>/src/hashstore`: engine, native replay and cross-check all read that copy), with
+its own replay and evidence directories; /repo is not touched.
+
+Usage: python3 tools/run_seeded.py [--copies N] [S-C03-1 ...]
 """
 import glob
 import json
 import os
-import re
+import shutil
 import subprocess
 import sys
+import tempfile
+from concurrent.futures import ThreadPoolExecutor
 
 ROOT = os.path.dirname(os.path.dirname(os.path.abspath(__file__)))
-import tempfile
 EVDIR = tempfile.mkdtemp(prefix="seeded-evidence-")   # never the committed evidence directory
 EXTRA = {"S-C04-2": ["C07"]}     # a change meant for one property that only a sibling can see
 
@@ -22,42 +29,83 @@ def sh(cmd, **kw):
     return subprocess.run(cmd, shell=True, capture_output=True, text=True, **kw)
 
 
+def collect(p, r, rdir):
+    lines = [l for l in r.stdout.splitlines() if l.startswith("VIOLATION")]
+    replays = []
+    for f in sorted(glob.glob(os.path.join(rdir, f"{p}-*.json"))):
+        j = json.load(open(f))
+        replays.append({"obligation": j["obligation"], "site": j.get("site"),
+                        "verdict": j["verdict"], "observed": (j.get("observed") or "")[:300]})
+    return {"check": f"./check {p}", "exit": r.returncode, "violations": len(lines),
+            "summary": (r.stdout.strip().splitlines() or [""])[-1][:200], "replays": replays}
+
+
+def run_in_repo(sid, d, p):
+    rdir = os.path.join(ROOT, "replays")
+    for f in glob.glob(os.path.join(rdir, f"{p}-*.json")):
+        os.remove(f)
+    assert sh(f"git -C /repo apply {d}/patch.diff").returncode == 0, sid
+    try:
+        r = sh(f"cd {ROOT} && VERIF_NO_BASELINE=1 VERIF_EVIDENCE_DIR={EVDIR} ./check {p}", timeout=3000)
+    finally:
+        sh("git -C /repo checkout -- .")
+    out = collect(p, r, rdir)
+    out["how"] = "patch applied to /repo with git apply, reverted with git checkout -- ."
+    return out
+
+
+def run_on_copy(sid, d, p):
+    w = tempfile.mkdtemp(prefix=f"seedrun-{sid}-{p}-")
+    try:
+        assert sh(f"git -C /repo archive HEAD src | tar -x -C {w}").returncode == 0
+        assert sh(f"cd {w} && patch -p1 -s < {d}/patch.diff").returncode == 0, sid
+        rdir = os.path.join(w, "replays")
+        r = sh(f"cd {ROOT} && HASHSTORE_SRC={w}/src/hashstore VERIF_NO_BASELINE=1 VERIF_EVIDENCE_DIR={w}/ev "
+               f"VERIF_REPLAY_DIR={rdir} ./check {p}", timeout=3000)
+        out = collect(p, r, rdir)
+        out["how"] = "scratch copy of /repo HEAD with the patch applied (HASHSTORE_SRC), /repo untouched"
+        return out
+    finally:
+        shutil.rmtree(w, ignore_errors=True)
+
+
+def one(sid, copies):
+    d = os.path.join(ROOT, "seeded", sid)
+    prop = sid.split("-")[1]
+    meta_p = os.path.join(d, "meta.json")
+    meta = json.load(open(meta_p)) if os.path.exists(meta_p) else {}
+    meta.update({"id": sid, "breaks_property": prop,
+                 "origin": "written by an independent sub-agent that was given only the "
+                           "property text and a scratch worktree of /repo",
+                 "needs": open(os.path.join(d, "notes.txt")).read().strip()[:1500]})
+    runs = []
+    for p in [prop] + EXTRA.get(sid, []):
+        x = run_on_copy(sid, d, p) if copies else run_in_repo(sid, d, p)
+        runs.append(x)
+        print(sid, p, "exit", x["exit"], x["violations"], "violation lines",
+              [y["verdict"] for y in x["replays"]], flush=True)
+    meta["ran"] = runs
+    meta["ran_on_repo_head"] = sh("git -C /repo rev-parse --short HEAD").stdout.strip()
+    meta["caught"] = any(x["exit"] == 1 for x in runs)
+    json.dump(meta, open(meta_p, "w"), indent=1)
+
+
 def main():
-    ids = sys.argv[1:] or sorted(os.path.basename(d) for d in glob.glob(os.path.join(ROOT, "seeded", "S-*")))
+    args = sys.argv[1:]
+    copies = 0
+    if args and args[0] == "--copies":
+        copies = int(args[1])
+        args = args[2:]
+    ids = args or sorted(os.path.basename(d) for d in glob.glob(os.path.join(ROOT, "seeded", "S-*")))
     assert sh("git -C /repo status --porcelain").stdout.strip() == "", "repo not clean"
-    for sid in ids:
-        d = os.path.join(ROOT, "seeded", sid)
-        prop = sid.split("-")[1]
-        meta_p = os.path.join(d, "meta.json")
-        meta = json.load(open(meta_p)) if os.path.exists(meta_p) else {}
-        meta.update({"id": sid, "breaks_property": prop,
-                     "origin": "written by an independent sub-agent that was given only the "
-                               "property text and a scratch worktree of /repo",
-                     "needs": open(os.path.join(d, "notes.txt")).read().strip()[:1500]})
-        runs = []
-        for p in [prop] + EXTRA.get(sid, []):
-            for f in glob.glob(os.path.join(ROOT, "replays", f"{p}-*.json")):
-                os.remove(f)
-            assert sh(f"git -C /repo apply {d}/patch.diff").returncode == 0, sid
-            try:
-                r = sh(f"cd {ROOT} && VERIF_NO_BASELINE=1 VERIF_EVIDENCE_DIR={EVDIR} ./check {p}", timeout=3000)
-            finally:
-                sh("git -C /repo checkout -- .")
-            lines = [l for l in r.stdout.splitlines() if l.startswith("VIOLATION")]
-            replays = []
-            for f in sorted(glob.glob(os.path.join(ROOT, "replays", f"{p}-*.json"))):
-                j = json.load(open(f))
-                replays.append({"obligation": j["obligation"], "site": j.get("site"),
-                                "verdict": j["verdict"], "observed": (j.get("observed") or "")[:300]})
-            runs.append({"check": f"./check {p}", "exit": r.returncode,
-                         "violations": len(lines), "summary": r.stdout.strip().splitlines()[-1][:200],
-                         "replays": replays})
-            print(sid, p, "exit", r.returncode, len(lines), "violation lines",
-                  [x["verdict"] for x in replays], flush=True)
-        meta["ran"] = runs
-        meta["caught"] = any(x["exit"] == 1 for x in runs)
-        json.dump(meta, open(meta_p, "w"), indent=1)
+    if copies:
+        with ThreadPoolExecutor(max_workers=copies) as ex:
+            list(ex.map(lambda s: one(s, True), ids))
+    else:
+        for sid in ids:
+            one(sid, False)
     assert sh("git -C /repo status --porcelain").stdout.strip() == ""
+    shutil.rmtree(EVDIR, ignore_errors=True)
 
 
 main()
